@@ -304,6 +304,27 @@ fn verbosity_ok(base: &Out, o: &Out, flags: &str) -> bool {
     true
 }
 
+fn eval_environment(st: &[Sym], m: Mode, e: usize, scratch: &Scratch) -> Option<Viol> {
+    let vcf = vcf_for(st, Pos::Unique);
+    let mut args = vec!["create", "-s", SAMPLES];
+    match m {
+        Mode::Default => {}
+        Mode::Strict => args.push("--strict"),
+        Mode::Project => args.extend(["--project-shape", "3,3", "--precision", "9"]),
+    }
+    let base = run_sfs(&args, Stdin::Bytes(vcf.as_bytes()), scratch);
+    let (name, env) = crate::cli::ENVIRONMENTS[e];
+    let o = crate::cli::run_sfs_env(&args, Stdin::Bytes(vcf.as_bytes()), scratch, env, &crate::cli::Limits::default());
+    if verbosity_ok(&base, &o, "") {
+        return None;
+    }
+    Some((
+        format!("C10|cli|environment-changes-result|{m:?}|{name}"),
+        format!("stream {} in mode {m:?}: with {env:?} in the environment the run gives {} stdout {:?} stderr {:?}; without it {} stdout {:?} stderr {:?}", stream_str(st), o.status_str(), o.stdout_str(), o.stderr_str().trim(), base.status_str(), base.stdout_str(), base.stderr_str().trim()),
+        J::obj([("kind", J::s("c10-environment")), ("stream", J::s(stream_str(st))), ("mode", J::s(format!("{m:?}"))), ("environment", J::u(e))]),
+    ))
+}
+
 fn eval_cohort(n: usize, p: usize, scratch: &Scratch) -> Option<Viol> {
     eval_cohort_records(n, p, 8, scratch)
 }
@@ -561,6 +582,78 @@ pub fn run(tier: Tier) -> i32 {
         for v in res.into_iter().flatten() {
             rep.violation(v.0, v.1, v.2);
         }
+        // a run whose spectrum cannot be written is a failing run: stdout on a full device and on a
+        // pipe whose reader is gone
+        {
+            let mut wj: Vec<(usize, Mode, bool)> = Vec::new();
+            for &i in &short {
+                for m in modes {
+                    for closed in [false, true] {
+                        wj.push((i, m, closed));
+                    }
+                }
+            }
+            let wres = par_map(wj.len(), |j| {
+                let (i, m, closed) = wj[j];
+                let st = &streams[i];
+                let vcf = vcf_for(st, Pos::Unique);
+                let mut args = vec!["create", "-s", SAMPLES];
+                match m {
+                    Mode::Default => {}
+                    Mode::Strict => args.push("--strict"),
+                    Mode::Project => args.extend(["--project-shape", "3,3", "--precision", "9"]),
+                }
+                let base = run_sfs(&args, Stdin::Bytes(vcf.as_bytes()), &scratch);
+                if !base.ok() || base.stdout.is_empty() {
+                    return None;
+                }
+                let o = if closed { crate::cli::run_sfs_stdout_closed_pipe(&args, vcf.as_bytes(), &scratch) } else { crate::cli::run_sfs_stdout_to(&args, vcf.as_bytes(), std::path::Path::new(crate::cli::private_device(true)), &scratch) };
+                if !o.ok() && o.diagnosed_error() {
+                    None
+                } else {
+                    Some((
+                        format!("C10|cli|unwritable-output-reported-as-success|{m:?}|{}", if closed { "closed-pipe" } else { "full-device" }),
+                        format!("stream {} in mode {m:?} with stdout on {}: {} stderr {:?}", stream_str(st), if closed { "a pipe whose reader is gone" } else { "a full device" }, o.status_str(), o.stderr_str().trim()),
+                        J::obj([("kind", J::s("c10-sink")), ("stream", J::s(stream_str(st))), ("mode", J::s(format!("{m:?}"))), ("closed", J::Bool(closed))]),
+                    ))
+                }
+            });
+            for v in wres.into_iter().flatten() {
+                rep.violation(v.0, v.1, v.2);
+            }
+            rep.part(Part {
+                name: "cli: a spectrum that cannot be written".into(),
+                evaluations: wj.len() as u64,
+                nontrivial: wj.len() as u64,
+                note: format!("{} streams of length <= 2 x 3 modes, every succeeding run again with stdout on a full device and on a pipe whose reader is gone: non-zero exit with a diagnostic", short.len()),
+                exhaustive: true,
+                extra: vec![],
+            });
+        }
+        // the environment must not decide what is reported either
+        let mut ej: Vec<(usize, Mode, usize)> = Vec::new();
+        for &i in &short {
+            for m in modes {
+                for e in 0..crate::cli::ENVIRONMENTS.len() {
+                    ej.push((i, m, e));
+                }
+            }
+        }
+        let eres = par_map(ej.len(), |j| {
+            let (i, m, e) = ej[j];
+            eval_environment(&streams[i], m, e, &scratch)
+        });
+        for v in eres.into_iter().flatten() {
+            rep.violation(v.0, v.1, v.2);
+        }
+        rep.part(Part {
+            name: "cli: the environment of the process".into(),
+            evaluations: ej.len() as u64,
+            nontrivial: ej.len() as u64,
+            note: format!("{} streams of length <= 2 x 3 modes x {} environments (RUST_LOG at trace and off, RUST_BACKTRACE, locale, colour and terminal variables, TMPDIR / HOME pointing nowhere, thread-pool variables): same success / failure, byte-identical stdout, the same `Skipped X/Y` report and the same site named by a failure as in the empty environment", short.len(), crate::cli::ENVIRONMENTS.len()),
+            exhaustive: true,
+            extra: vec![],
+        });
         rep.part(Part {
             name: "cli: verbosity flags".into(),
             evaluations: vj.len() as u64,
@@ -715,6 +808,30 @@ pub fn run(tier: Tier) -> i32 {
 pub fn replay(case: &J) -> Option<Vec<String>> {
     if case.get("kind").and_then(|k| k.as_str()) == Some("c10-script") {
         return super::c11::replay_script(case);
+    }
+    if case.get("kind").and_then(|k| k.as_str()) == Some("c10-sink") {
+        let st = parse_stream(case.get("stream")?.as_str()?)?;
+        let scratch = Scratch::new("c10r");
+        let vcf = vcf_for(&st, Pos::Unique);
+        let mut args = vec!["create", "-s", SAMPLES];
+        match case.get("mode")?.as_str()? {
+            "Strict" => args.push("--strict"),
+            "Project" => args.extend(["--project-shape", "3,3", "--precision", "9"]),
+            _ => {}
+        }
+        let closed = matches!(case.get("closed"), Some(J::Bool(true)));
+        let o = if closed { crate::cli::run_sfs_stdout_closed_pipe(&args, vcf.as_bytes(), &scratch) } else { crate::cli::run_sfs_stdout_to(&args, vcf.as_bytes(), std::path::Path::new(crate::cli::private_device(true)), &scratch) };
+        return Some(if !o.ok() && o.diagnosed_error() { vec![] } else { vec![format!("C10|cli|unwritable-output-reported-as-success :: {}", o.status_str())] });
+    }
+    if case.get("kind").and_then(|k| k.as_str()) == Some("c10-environment") {
+        let st = parse_stream(case.get("stream")?.as_str()?)?;
+        let scratch = Scratch::new("c10r");
+        let m = match case.get("mode")?.as_str()? {
+            "Strict" => Mode::Strict,
+            "Project" => Mode::Project,
+            _ => Mode::Default,
+        };
+        return Some(eval_environment(&st, m, case.get("environment")?.as_i64()? as usize, &scratch).into_iter().map(|(k, w, _)| format!("{k} :: {w}")).collect());
     }
     if case.get("kind").and_then(|k| k.as_str()) == Some("c10-verbosity") {
         let st = parse_stream(case.get("stream")?.as_str()?)?;
